@@ -435,7 +435,7 @@ def c16(ctx):
                       cfg_text=TP_CFG % ("PSpec", 2, 2, "FALSE", 2 if thorough else 1, "INVARIANT NeverWrong"))
     trace = os.path.join(ctx.tmp, "corrupt_trace.ndjson")
     res = os.path.join(ctx.tmp, "c16res.ndjson")
-    ctx.run_vh(["c16", "run", trace, res, 0 if thorough else 360], timeout=6 * 3600)
+    ctx.run_vh(["c16", "run", trace, res, 0 if thorough else 600], timeout=6 * 3600)
     n = ctx.absorb(res)
     t = ctx.tlc("CorruptTrace", "CorruptTrace.cfg", mode="trace", files=[trace], timeout=3000)
     if t["status"] == "invariant" and t.get("which") == "NeverWrong":
@@ -1000,7 +1000,8 @@ def c03(ctx):
                         "are covered through the shipped @Test vectors only",
                         "signed modulo is |a| mod |b| and widening casts sign-extend only between signed types, as the shipped vectors / the "
                         "compiler's own rule fix them; division by zero is unspecified and never generated",
-                        "TLC's integers limit the interpreter to widths <= 13; wider operands are covered by C07's relational checks"]
+                        "TLC's integers limit the interpreter to widths <= 13; single-operator programs on 33..130-bit types are checked relationally on limbs "
+                        "(ArithTrace.tla), the builders themselves under C07"]
     # (M) the interpreter is total and type-correct on every program of <= 2 statements (states = programs)
     ctx.tlc_expect_ok("MpclGen", "Mpcl_mc.cfg", name="mpcl-mc", timeout=3000,
                       cfg_text=MPCL_CFG % ("{1, 3}", 2 if thorough else 1,
@@ -1026,6 +1027,27 @@ def c03(ctx):
     vf = os.path.join(ctx.tmp, "c03vec.ndjson")
     ctx.run_vh(["c03", "vectors", vf], timeout=3400)
     ctx.absorb(vf)
+    # operators on 33..130-bit types: results of the compiled programs checked relationally on limbs (ArithTrace.tla)
+    wtrace = os.path.join(ctx.tmp, "c03wide", "arith_trace.ndjson")
+    os.makedirs(os.path.dirname(wtrace), exist_ok=True)
+    wres = os.path.join(ctx.tmp, "c03wide.ndjson")
+    ctx.run_vh(["c03", "wide", wtrace, wres, 1500 if thorough else 150], timeout=3400)
+    ctx.absorb(wres)
+    wrows = read_ndjson(wtrace)
+    t = ctx.tlc("ArithTrace", "ArithTrace.cfg", mode="trace", files=[wtrace], name="c03-wide", timeout=3400, xss="64m")
+    if t["status"] == "invariant":
+        import re
+        m = re.findall(r"bad = (\d+)", t["out"])
+        ln = int(m[-1]) if m else 0
+        ev = wrows[ln - 1] if 0 < ln <= len(wrows) else {}
+        ctx.violation("wide:%s:%s" % (ev.get("op"), ev.get("wx")),
+                      "`%s` on %s-bit operands: the compiled program's result violates the exact relation (trace line %d: x=%s y=%s z=%s r=%s, "
+                      "base-4096 limbs)" % (ev.get("op"), ev.get("wx"), ln, ev.get("x"), ev.get("y"), ev.get("z"), ev.get("r")), ev)
+    elif t["status"] != "ok":
+        raise Broken("ArithTrace (C03 wide) failed: %s\n%s" % (t["status"], t["out"][-3000:]))
+    else:
+        ctx.cov["traces_validated_against_impl"] += len(wrows)
+    ctx.cov["wide_events"] = len(wrows)
     ctx.cov["rule"] = ("one evaluation = one generated program (rendered to MPCL, compiled, evaluated on up to 49 boundary input pairs against the "
                        "interpreter) or one shipped test program with all its @Test vectors; non-trivial = at least three statements; class "
                        "`rejected` = the compiler refuses the program (not counted as held or violated)")
@@ -1563,6 +1585,10 @@ def c08(ctx):
     ctx.cov["compile_errors"] = len(errs)
     if len(errs) * 2 > len(events):
         raise Broken("most compilations fail: %s" % errs[0]["err"])
+    for prog in sorted(set(e["key"].split("/")[0] for e in events)):
+        mine = [e for e in events if e["key"].split("/")[0] == prog]
+        if all(e["err"] for e in mine):
+            raise Broken("program %s never compiles (dead driver): %s" % (prog, mine[0]["err"]))
     # (T) one key, one circuit, one SSA listing - decided by DetermTrace.tla over all histories
     r = ctx.tlc("DetermTrace", "DetermTrace.cfg", mode="trace", name="determtrace", files=[tf], timeout=3000)
     if r["status"] != "ok":
